@@ -192,13 +192,17 @@ pub trait Reader<'de> {
     // do not look inside errors, unit `errors` defines it as offset/line/column correctness).
     fn check_utf8_final(&self) -> (r: Result<()>)
         requires self.wf(),
-        ensures r.is_err() ==> err_ok(r.unwrap_err(), self.data());
+        ensures r.is_err() ==> err_ok(r.unwrap_err(), self.data()),
+            // Ok exactly when the up-front validation found nothing (`usize::MAX`)
+            r.is_ok() <==> self.next_invalid() == usize::MAX;
 
     // deferred-UTF-8 bookkeeping (src/reader.rs): offset of the first invalid byte at/after the last validated position
     // (usize::MAX when there is none); `check_invalid_utf8` re-validates from the reader position on. No functional
     // contract (T4) beyond leaving the document and the position alone.
+    spec fn next_invalid(&self) -> nat;
     fn next_invalid_utf8(&self) -> (r: usize)
-        requires self.wf();
+        requires self.wf(),
+        ensures r == self.next_invalid();
     fn check_invalid_utf8(&mut self)
         requires old(self).wf(),
         ensures final(self).wf(), final(self).data() == old(self).data(), final(self).idx() == old(self).idx();
